@@ -397,7 +397,7 @@ def run_dht(scenario, run, monitor=False, corrupt_factory=None, max_steps=12_000
                     holder = world.nodes[j] if j is not None else None
                     held = holder is not None and any(
                         (p.address, p.tcp_port) == my
-                        for p, _ts in holder.protocol.data_store._data_store.get(key, []))
+                        for p in holder.protocol.data_store.filter_expired_peers(key))
                     if not held:
                         run.violation('C12.store_not_held', f'node {j} was reported as storing the announcement of '
                                       f'node {i} but does not hold it')
@@ -439,7 +439,7 @@ def run_dht(scenario, run, monitor=False, corrupt_factory=None, max_steps=12_000
                     if ok:
                         lst.append(ta)
                 run.ev('thin_announce', op['count'], len(lst))
-                held = world.nodes[t].protocol.data_store._data_store.get(key, [])
+                held = list(world.nodes[t].protocol.data_store.filter_expired_peers(key))
                 if len(held) < len(lst):
                     run.violation('C12.store_not_held', f'{len(lst)} thin announcers got OK but target holds {len(held)}')
                     return
